@@ -444,6 +444,13 @@ class Parser:
             if tail is not None:
                 self.err("statement after a tail expression")
             x = self.peek()
+            extra = self.stmt_extra()
+            if extra is not None:
+                if extra[0] == "tail":
+                    tail = extra[1]
+                elif extra[1] is not None:
+                    stmts.append(extra[1])
+                continue
             if x.k == "op" and x.t == "#":
                 self.err("attributes inside a function body are outside the subset")
             if self.at("let"):
@@ -481,6 +488,16 @@ class Parser:
         self.eat("}")
         self.in_cond = saved_cond
         return N("block", lb.line, stmts=stmts, tail=tail)
+
+    def stmt_extra(self):
+        """hook for subclasses (translate_train_kernels.py): further statement forms at the start of a
+        statement; returns None (not handled), ("stmt", node | None) or ("tail", node).  The powertrain
+        subset has none."""
+        return None
+
+    def method_args(self, name):
+        """hook for subclasses: the argument list of the method call `.name(…)`"""
+        return self.args()
 
     def let_stmt(self):
         l = self.eat("let")
@@ -607,7 +624,7 @@ class Parser:
                 if self.at("::"):
                     tf = self.turbofish()
                 if self.at("("):
-                    e = N("method", x.line, recv=e, name=name, tf=tf, args=self.args())
+                    e = N("method", x.line, recv=e, name=name, tf=tf, args=self.method_args(name))
                 else:
                     if tf is not None:
                         self.err("turbofish without a call")
